@@ -26,6 +26,7 @@ ScoresOf(js) == LET S == ToSet(js) IN [c \in {x[1] : x \in S} |-> Rat2((CHOOSE x
 TbOf(js) == {<<ToSet(t.tied), SetSeq(t.order)>> : t \in ToSet(js)}
 RoundOf(e) == [elected |-> SetSeq(e.elected), eliminated |-> SetSeq(e.eliminated), remaining |-> SetSeq(e.remaining),
                scores |-> ScoresOf(e.scores), tiebreaks |-> TbOf(e.tiebreaks), bag |-> BagOf(e.bag)]
+VOrderOf(js) == [i \in 1..Len(js) |-> SetSeq(js[i])]
 CfgOf(c) == [rule |-> c.rule, m |-> c.m, quota |-> c.quota, simul |-> c.simul, xfer |-> c.xfer, tb |-> c.tb, m1 |-> c.m1,
              vec |-> [i \in 1..Len(c.vec) |-> Rat2(c.vec[i])]]
 
@@ -34,7 +35,7 @@ Write(rec) == Serialize(ToJson(rec) \o "\n", IOEnv.VERDICT_FILE,
 
 TInit ==
   /\ tid \in 1..Len(Traces) /\ l = 0 /\ nrej = 0 /\ done = FALSE
-  /\ StartInit(CfgOf(Traces[tid].cfg), BagOf(Traces[tid].prof0), ToSet(Traces[tid].cands))
+  /\ StartInit(CfgOf(Traces[tid].cfg), BagOf(Traces[tid].prof0), ToSet(Traces[tid].cands), VOrderOf(Traces[tid].vorder))
 
 (* the fields of the logged round that a candidate successor must reproduce *)
 Fields == <<"elected", "eliminated", "tiebreaks", "bag", "scores", "remaining">>
@@ -43,9 +44,10 @@ Fields == <<"elected", "eliminated", "tiebreaks", "bag", "scores", "remaining">>
 Match(F) == LET e == RoundOf(Ev)  n == rounds'[Len(rounds')] IN \A f \in F : (f = "bag" /\ ~Ev.bagknown) \/ n[f] = e[f]
 LabelOK == Ev.p[2] = 0 \/ cfg.rule = "PluralityVeto" \/ plabel' = Rat2(Ev.p)            \* p = [0,0]: probability not logged (sampled run)
 ThrOK == Ev.thr < 0 \/ thr' = Ev.thr
+VOrderOK == cfg.rule # "PluralityVeto" \/ status' # "running" \/ vorder' = VOrderOf(Ev.vorder)
 RoundStep(F, withLabel) ==
   /\ Next /\ Len(rounds') = Len(rounds) + 1 /\ status' # "ValueError"
-  /\ Match(F) /\ ThrOK /\ (withLabel => LabelOK)
+  /\ Match(F) /\ ThrOK /\ VOrderOK /\ (withLabel => LabelOK)
 ErrorStep == Next /\ status' = Ev.class
 
 \* ------------------------------------------------------------------ queries on a finished election (C09)
@@ -138,6 +140,7 @@ ResyncBody ==
        /\ scands' = IF stage = "cut" THEN UNION Range(e.remaining) ELSE scands
        /\ thr' = IF Ev.thr >= 0 THEN Ev.thr ELSE thr
        /\ plabel' = R(1)
+       /\ vorder' = IF cfg.rule = "PluralityVeto" THEN VOrderOf(Ev.vorder) ELSE vorder
   /\ l' = l + 1 /\ nrej' = nrej + 1
   /\ UNCHANGED <<cfg, cands, prof0, tid, done>>
 
